@@ -116,6 +116,55 @@ pub fn run(op: &str, args: &[String]) -> Option<String> {
                 let sig = BSM::sign_message(&k, b"m").unwrap();
                 cls(sig.recover_public_key_from_digest(&arg_bytes(args, 0)?))
             }
+            "cbor_txin_hex" => cls(TxIn::from_compact_hex(&text(args, 0)?)),
+            "pubkey_hash" => cls(P2PKHAddress::from_pubkey_hash(&arg_bytes(args, 0)?)),
+            "seed_xprv" => cls(ExtendedPrivateKey::from_seed(&arg_bytes(args, 0)?)),
+            "seed_xpub" => cls(ExtendedPublicKey::from_seed(&arg_bytes(args, 0)?)),
+            "path_xprv" => {
+                let x = ExtendedPrivateKey::from_seed(&[7u8; 32]).unwrap();
+                cls(x.derive_from_path(&text(args, 0)?))
+            }
+            "path_xpub" => {
+                let x = ExtendedPublicKey::from_seed(&[7u8; 32]).unwrap();
+                cls(x.derive_from_path(&text(args, 0)?))
+            }
+            "chunks" => {
+                // Script::from_chunks: the argument is split into chunks of 1..4 bytes
+                let b = arg_bytes(args, 0)?;
+                let chunks: Vec<Vec<u8>> = b.chunks(3).map(|c| c.to_vec()).collect();
+                cls(Script::from_chunks(chunks))
+            }
+            "template_of_script" => match Script::from_bytes(&arg_bytes(args, 0)?) {
+                Ok(sc) => {
+                    let _ = ScriptTemplate::from_script(&sc);
+                    "OK".into()
+                }
+                Err(_) => "ERR".into(),
+            },
+            "interp_tx" => match Transaction::from_bytes(&arg_bytes(args, 0)?) {
+                // a parsed transaction handed to the interpreter constructor at an arbitrary index
+                Ok(tx) => {
+                    let idx = arg_u64(args, 1).unwrap_or(0) as usize;
+                    match Interpreter::from_transaction(&tx, idx) {
+                        Ok(mut i) => {
+                            let _ = i.run();
+                            "OK".into()
+                        }
+                        Err(_) => "ERR".into(),
+                    }
+                }
+                Err(_) => "ERR".into(),
+            },
+            "ecies_decrypt_msg" => match ECIESCiphertext::from_bytes(&arg_bytes(args, 0)?, true) {
+                Ok(c) => {
+                    let k = key_from_seed(7);
+                    match c.extract_public_key() {
+                        Ok(pk) => cls(k.decrypt_message(&c, &pk)),
+                        Err(_) => "ERR".into(),
+                    }
+                }
+                Err(_) => "ERR".into(),
+            },
             "recover_digest2" => match Signature::from_compact_bytes(&arg_bytes(args, 0)?) {
                 // arbitrary compact signature + arbitrary digest
                 Ok(s) => cls(s.recover_public_key_from_digest(&arg_bytes(args, 1)?)),
